@@ -44,6 +44,28 @@ func execMap(op string, a []string) string {
 			return "ok " + hx(out) + " REUSED-DESTINATION-DIFFERS " + hx(out2)
 		}
 		return "ok " + hx(out)
+	case "map.views":
+		// map.views <hex>: the same octets decoded as key.CoseMap, cose.Headers, cwt.ClaimsMap and key.Key — the typed views
+		// are the same map: they accept and refuse alike and re-encode to the same octets (no view rewrites a value)
+		data := unhx(a[0])
+		var cm key.CoseMap
+		var hv cose.Headers
+		var cv cwt.ClaimsMap
+		var kv key.Key
+		e0, e1, e2, e3 := cm.UnmarshalCBOR(data), hv.UnmarshalCBOR(data), cv.UnmarshalCBOR(data), kv.UnmarshalCBOR(data)
+		if (e0 == nil) != (e1 == nil) || (e0 == nil) != (e2 == nil) || (e0 == nil) != (e3 == nil) {
+			return fmt.Sprintf("VIEWS-DISAGREE on acceptance: CoseMap=%v Headers=%v ClaimsMap=%v Key=%v", e0 == nil, e1 == nil, e2 == nil, e3 == nil)
+		}
+		if e0 == nil {
+			b0, _ := cm.MarshalCBOR()
+			b1, _ := hv.MarshalCBOR()
+			b2, _ := cv.MarshalCBOR()
+			b3, _ := kv.MarshalCBOR()
+			if string(b1) != string(b0) || string(b2) != string(b0) || string(b3) != string(b0) {
+				return "VIEWS-DISAGREE on the value: CoseMap=" + hx(b0) + " Headers=" + hx(b1) + " ClaimsMap=" + hx(b2) + " Key=" + hx(b3)
+			}
+		}
+		return "same"
 	case "map.getmap":
 		// map.getmap <value>: GetMap on {1: value} through CoseMap and the typed views; a label map given as a plain Go map
 		// (what a generic decoder produces) goes through the reflection path, which normalises / refuses the labels
@@ -283,7 +305,15 @@ func genMap(r *rand.Rand, n int) []string {
 		if r.Intn(8) == 0 {
 			b = mutateBytes(r, b)
 		}
-		out = append(out, "map.unmarshal "+hx(b))
+		out = append(out, "map.unmarshal "+hx(b), "map.views "+hx(b))
+		if len(out)%14 == 0 { // registered claim / header labels holding floats (NumericDate may be a float), tagged values, tagged labels
+			fixed := []string{
+				"a104fb41d954ffc4000000", "a204fb41d954ffc430000005fa4eca9a80", "a106f97c00", "a30418640518650618c8",
+				"a104c11a6553ff10", "a1d8640127", "a2d86401270426", "a101d8641827", "a104fb7ff0000000000000", "a105f9fc00",
+			}
+			fx := fixed[(len(out)/14)%len(fixed)]
+			out = append(out, "map.unmarshal "+fx, "map.views "+fx)
+		}
 	}
 	return out
 }
